@@ -10,6 +10,7 @@ import Midgard.Proofs.TimeScale
 import Midgard.Generated.TimeScaleTables
 import Midgard.Spec.TaiUtcPublished
 import Midgard.Generated.SourceExprsTime
+import Midgard.Proofs.TimeSearch
 import Mathlib.Tactic.NormNum
 
 set_option linter.unusedSimpArgs false
@@ -254,8 +255,11 @@ the tree under test: the arithmetic of `delta_tai_utc` (both branches), of the r
 "row has started" test of `_taiutc_idx`, of `delta_tai_tt`, `delta_gps_tai`, `delta_tcg_tt` (both branches each) and
 of the eight registered hop functions, statement by statement.  The theorems of this section say that the model
 definitions every other theorem of this file is about are *equal* (over ℚ) to those regenerated definitions, with
-`Unit.seconds2day = 1/86400`.  Hand-modelled and tied by the correspondence only: the NumPy row selection
-(`np.sum(… >= 0) - 1`, `np.maximum`), the route search and `to_scale`'s folding of the hops. -/
+`Unit.seconds2day = 1/86400`.  The control flow around that arithmetic — the NumPy row selection (`np.sum(… >= 0) - 1`,
+`np.maximum`), the route search and `to_scale`'s folding of the hops — is regenerated as well (`Generated/SourceTimeFlow.lean`,
+second half of this section).  Still hand-modelled and tied by the correspondence only: NumPy's broadcasting of the row test
+over arrays of epochs (modelled as `map`; the translator checks the axis pattern `[..., None]` / `axis=-1`), the memoisation of
+routes in `_CONVERSION_HOPS` and of results in `lru_cache` (C08). -/
 section Source
 open Midgard.Generated
 set_option linter.unusedTactic false
@@ -315,6 +319,84 @@ theorem source_hops (tbl : List Row) (c : Consts) (j : JD) (x1 x2 x3 x4 : Rat) :
        SrcTime.gps2taiSrc, SrcTime.tai2gpsSrc, utc2tai, tai2utc, tai2tt, tt2tai, tt2tcg, tcg2tt, gps2tai, tai2gps, h.1, h.2.1, h.2.2.1, h.2.2.2, g.1, g.2,
        Prod.mk.injEq, true_and] <;> (first | rfl | ring_nf))
 
+/-! #### Control flow (regenerated on every run by `translator/extract_timeflow.py` → `Generated/SourceTimeFlow.lean`)
+
+The row selection of `_taiutc_idx` (`np.maximum(np.sum(<row has started>, axis=-1) - 1, 0)`, with the arguments each branch of
+`delta_tai_utc` passes), the breadth-first search of `_find_conversion_hops` statement by statement, and `to_scale` /
+`_to_scale` (own scale, registered direct hop, searched route, fold of the hop functions).  For every table, registry, pair
+of scales and iteration bound the regenerated definitions are the model's `rowAt ∘ startedUtc/startedTai`, `bfs`, `route`,
+`convert`. -/
+
+/-- the four table columns `_taiutc_idx` / `delta_tai_utc` read: start, offset, ref_epoch, factor -/
+def rowCols (r : Row) : Rat × Rat × Rat × Rat := (r.start, r.offset, r.refMjd, r.rate)
+
+/-- **row selection**: the row the model looks up (`rowAt` of the number of started rows) is `table[idx]` for the index the
+source computes, in both branches of `delta_tai_utc` -/
+theorem source_row_selection (tbl : List Row) (tol : Rat) (j : JD) :
+    rowAt tbl (startedUtc tbl tol j) = Flow.rowOf tbl (SrcFlow.rowIndexOfUtcSrc (tbl.map rowCols) tol s2d j.jd1 j.jd2) ∧
+    rowAt tbl (startedTai tbl tol j) = Flow.rowOf tbl (SrcFlow.rowIndexOfTaiSrc (tbl.map rowCols) tol s2d j.jd1 j.jd2) := by
+  have hU : ∀ r : Row, SrcTime.rowStartedSrc j.jd1 j.jd2 r.start (0.0 : Rat) tol
+      = decide (0 ≤ (j.jd1 - r.start) + j.jd2 + tol) := by
+    intro r
+    have h0 : (0.0 : Rat) = 0 := by norm_num
+    rw [h0]; exact (source_row_started r tol j).1
+  have hT : ∀ r : Row, SrcTime.rowStartedSrc j.jd1 j.jd2 r.start (SrcTime.rowStartDeltaSrc r.start r.offset r.refMjd r.rate s2d) tol
+      = decide (0 ≤ (j.jd1 - r.start) + j.jd2 - r.startDelta + tol) := by
+    intro r
+    rw [(source_delta_tai_utc r 0).2.2]; exact (source_row_started r tol j).2
+  constructor
+  · simp only [SrcFlow.rowIndexOfUtcSrc, SrcFlow.taiutcIdxSrc, List.map_map, countTrue_map, rowOf_idx, rowAt, startedUtc,
+      Function.comp_def, rowCols, hU]
+  · simp only [SrcFlow.rowIndexOfTaiSrc, SrcFlow.taiutcIdxSrc, List.map_map, countTrue_map, rowOf_idx, rowAt, startedTai,
+      Function.comp_def, rowCols, hT]
+
+/-- **route search**: `_find_conversion_hops` as written in the source is the model's breadth-first search, for every
+registry (any set of hops in any registration order), every pair of scales and every bound on the loop iterations -/
+theorem source_route_search (g : List Hop) (a b : Scale) (fuel : Nat) :
+    SrcFlow.findHopsSrc g a b fuel = if a = b then some [(a, b)] else bfs g b fuel [(a, [])] [] :=
+  findHopsSrc_eq g a b fuel
+
+/-- **`to_scale`**: the route it takes is the model's `route`, and what it returns is the model's `convert` (the fold of the
+registered hop functions along that route) -/
+theorem source_to_scale (tbl : List Row) (c : Consts) (g : List Hop) (a b : Scale) (j : JD) :
+    SrcFlow.toScaleRouteSrc g a b 64 = route g a b ∧
+    SrcFlow.toScaleSrc g (hopFn tbl c) a b 64 j = convert tbl c g a b j :=
+  ⟨toScaleRouteSrc_eq g a b, toScaleSrc_eq tbl c g a b j⟩
+
+/-- the bound of 64 loop iterations is never reached on the registered hop set: with 8 hops the search ends after at most
+9 iterations for every pair (the route found with bound 9 is the route found with bound 64) -/
+theorem route_bound_suffices (a b : Scale) : SrcFlow.toScaleRouteSrc G a b 9 = SrcFlow.toScaleRouteSrc G a b 64 := by
+  cases a <;> cases b <;> decide +kernel
+
+/-! #### The registry: nothing registered lies outside the theorems above
+
+`Generated.SrcFlow.registerSites` lists every `@register_scale(…)` of the package (`ast` of midgard/**/*.py);
+`Generated.TimeScale.scaleNames/hopNames` is what the imported module holds. -/
+
+/-- the decorators of the source tree register exactly the five `TimeArray` scales with the eight hops of `hops_registered`,
+and the five `TimeDeltaArray` scales with no conversion at all (a duration is never converted between scales: outside the
+property); no other module registers a scale (there is no UT1, TDB, … in this tree) -/
+theorem registry_complete :
+    (SrcFlow.registerSites.filter (fun s => s.2.2.1 == "TimeArray")).map (fun s => (s.2.2.2.1, s.2.2.2.2))
+      = [("utc", [("utc", "tai", "_utc2tai")]),
+         ("tai", [("tai", "utc", "_tai2utc"), ("tai", "tt", "_tai2tt"), ("tai", "gps", "_tai2gps")]),
+         ("tcg", [("tcg", "tt", "_tcg2tt")]), ("gps", [("gps", "tai", "_gps2tai")]),
+         ("tt", [("tt", "tai", "_tt2tai"), ("tt", "tcg", "_tt2tcg")])] ∧
+    (SrcFlow.registerSites.filter (fun s => s.2.2.1 != "TimeArray")).map (fun s => (s.2.2.1, s.2.2.2.1, s.2.2.2.2))
+      = [("TimeDeltaArray", "utc", []), ("TimeDeltaArray", "tai", []), ("TimeDeltaArray", "tcg", []),
+         ("TimeDeltaArray", "gps", []), ("TimeDeltaArray", "tt", [])] ∧
+    SrcFlow.registerSites.all (fun s => s.1 == "midgard/data/_time.py") = true ∧
+    Generated.TimeScale.scaleNames = ["utc", "tai", "tcg", "gps", "tt"] ∧
+    Generated.TimeScale.deltaScaleNames = ["utc", "tai", "tcg", "gps", "tt"] ∧
+    Generated.TimeScale.deltaHopCount = 0 ∧
+    (SrcFlow.registerSites.flatMap (fun s => if s.2.2.1 == "TimeArray" then s.2.2.2.2 else [])).length
+      = Generated.TimeScale.hopNames.length ∧
+    (∀ h ∈ Generated.TimeScale.hopNames, h ∈ SrcFlow.registerSites.flatMap (fun s => s.2.2.2.2)) := by
+  decide +kernel
+
+/-- every registered hop is a hop the model has a function for, and every scale pair is served by `convert_spec` -/
+theorem registry_modelled : ∀ h ∈ G, (hopFn T C h).isSome = true := by decide +kernel
+
 end Source
 
 end Midgard.Props.C01
@@ -353,3 +435,9 @@ end Midgard.Props.C01
 #print axioms Midgard.Props.C01.source_constant_offsets
 #print axioms Midgard.Props.C01.source_delta_tcg_tt
 #print axioms Midgard.Props.C01.source_hops
+#print axioms Midgard.Props.C01.source_row_selection
+#print axioms Midgard.Props.C01.source_route_search
+#print axioms Midgard.Props.C01.source_to_scale
+#print axioms Midgard.Props.C01.route_bound_suffices
+#print axioms Midgard.Props.C01.registry_complete
+#print axioms Midgard.Props.C01.registry_modelled
